@@ -189,7 +189,7 @@ fn container_set(sub: &str, thorough: bool) -> Vec<(String, String, Comp, Packag
     v.push(("multi-zstd-concat".into(), "multi".into(), Comp::Zstd(5), Packaging::NoConcat, true));
     // several content packs inside one file, all recorded with the same location string (a check
     // or a lookup that remembers what it did per location string treats them as one pack)
-    if sub == "c04" || sub == "c05" {
+    if sub == "c04" || (sub == "c05" && thorough) {
         v.push(("multi2-none-concat-sameloc".into(), "multi2".into(), Comp::None, Packaging::NoConcat, true));
     }
     if thorough {
